@@ -81,6 +81,15 @@ func c02Property(t *rapid.T) {
 		}
 	}
 	r.InCallback = func(string) { pause() }
+	// the application declines a generated subset of its own sends in ToApp: no number is used up
+	declineEvery := rapid.SampledFrom([]int{0, 0, 3, 5}).Draw(t, "decline-every")
+	r.RefuseSend = func(_ string, m *quickfix.Message) bool {
+		if declineEvery == 0 {
+			return false
+		}
+		id, _ := m.Body.GetString(11)
+		return len(id) > 0 && int(id[len(id)-1]-'0')%declineEvery == 0 && strings.HasPrefix(id, "g")
+	}
 	r.StorePause = pause
 	p := peer.New(begin, "PEER", "ENG")
 	if _, ok := r.Connect(); !ok {
@@ -307,6 +316,9 @@ func c02Property(t *rapid.T) {
 	}
 	if engineMsgs > 0 {
 		c.Class("engine-traffic-overlapping-sends")
+	}
+	if declineEvery != 0 {
+		c.Class("application-declines-some-sends")
 	}
 	if accepted >= 2 && engineMsgs >= 1 {
 		keys := append([]string{storeKind, fmt.Sprint(per), fmt.Sprint(events)}, fmt.Sprint(plan))
